@@ -103,8 +103,8 @@ package gates
 //@ func (e *EvaluationVars) RemovePrefix(numSelectors uint64)
 //@   props C15
 //@   plain
-//@   requires numSelectors <= len(e.localConstants)
 //@   modifies e.localConstants
+//@   ensures numSelectors <= len(old(e.localConstants))
 //@   ensures len(e.localConstants) == len(old(e.localConstants)) - numSelectors
 //@   ensures forall(k, 0, len(e.localConstants), e.localConstants[k] == old(e.localConstants)[k + numSelectors])
 
@@ -162,7 +162,7 @@ package gates
 //@ func (g *NoopGate) EvalUnfiltered(api frontend.API, glApi *gl.Chip, vars EvaluationVars) (res []gl.QuadraticExtensionVariable)
 //@   props C15
 //@   circuit
-//@   ensures len(res) == 0
+//@   ensures len(res) == 0 && canonQEs(res)
 
 //@ func (g *PublicInputGate) EvalUnfiltered(api frontend.API, glApi *gl.Chip, vars EvaluationVars) (res []gl.QuadraticExtensionVariable)
 //@   props C15
@@ -282,6 +282,42 @@ package gates
 //@   loop 6 invariant forall(c, 0, g.numCopies, ra_recon_ok(constraints, vars.localWires, g, c))
 //@   loop 6 invariant forall(c, 0, g.numCopies, ra_item_ok(constraints, vars.localWires, g, c))
 //@   loop 6 invariant forall(k, 0, i, constraints[g.numCopies * (g.bits + 2) + k] == qe_subo(vars.localConstants[k], vars.localWires[ra_stride(g) * g.numCopies + k]))
+
+// ------------------------------------------------------------------ selector filtering (C15)
+// The dynamic call gate.EvalUnfiltered is used through the contract of the interface method: canonical results.
+// Every implementation under contract restates that postcondition (checked); its own preconditions beyond
+// gv_ok - bounds on the gate parameters and, for completeness, wire-vector lengths - are assumptions at this call.
+//@ func (g Gate) EvalUnfiltered(api frontend.API, glApi *gl.Chip, vars EvaluationVars) (res []gl.QuadraticExtensionVariable)
+//@   props C15
+//@   circuit
+//@   flag interface carrier:NoopGate
+//@   requires gv_ok(glApi, vars)
+//@   ensures canonQEs(res)
+
+// plonky2 compute_filter: the product of (i - s) over the group's rows other than `row`, times (UNUSED_SELECTOR - s)
+// when the circuit has more than one selector
+//@ recdef flt(s QE, row int, lo int, k int) QE = ite(k <= lo, tuple(1, 0), ite(k - 1 == row, flt(s, row, lo, k - 1), qe_mulo(flt(s, row, lo, k - 1), qe_subo(tuple(k - 1, 0), s))))
+//@ def filter_spec(s, row, lo, hi, many) = ite(many, qe_mulo(flt(s, row, lo, hi), qe_subo(tuple(4294967295, 0), s)), flt(s, row, lo, hi))
+//@ func (g *EvaluateGatesChip) computeFilter(row uint64, groupRange Range, s gl.QuadraticExtensionVariable, manySelector bool) (res gl.QuadraticExtensionVariable)
+//@   props C15
+//@   circuit
+//@   requires canonQE(s) && groupRange.start < 1048576 && groupRange.end < 1048576
+//@   ensures canonQE(res)
+//@   ensures res == filter_spec(s, row, groupRange.start, groupRange.end, manySelector)
+//@   loop 0 invariant groupRange.start <= i && i <= 1048576 && (i <= groupRange.end || i == groupRange.start) && chipok(glApi) && canonQE(product) && product == flt(s, row, groupRange.start, i)
+
+//@ func (g *EvaluateGatesChip) evalFiltered(gate Gate, vars EvaluationVars, row uint64, selectorIndex uint64, groupRange Range, numSelectors uint64) (res []gl.QuadraticExtensionVariable)
+//@   props C15
+//@   circuit sound-only
+//@   requires canonQEs(vars.localConstants) && canonQEs(vars.localWires) && groupRange.start < 1048576 && groupRange.end < 1048576 && numSelectors < 1048576
+//@   ghost unf []gl.QuadraticExtensionVariable = atentry(unfiltered, 0)
+//@   ensures selectorIndex < len(vars.localConstants) && numSelectors <= len(vars.localConstants)
+//@   ensures len(res) == len(unf) && canonQEs(res)
+//@   ensures forall(k, 0, len(res), res[k] == qe_mulo(unf[k], filter_spec(vars.localConstants[selectorIndex], row, groupRange.start, groupRange.end, numSelectors > 1)))
+//@   loop 0 invariant -1 <= rangeindex && rangeindex < len(unfiltered) && len(unfiltered) == len(atentry(unfiltered, 0))
+//@   loop 0 invariant canonQEs(unfiltered) && canonQE(filter) && chipok(glApi)
+//@   loop 0 invariant forall(k, 0, rangeindex + 1, unfiltered[k] == qe_mulo(atentry(unfiltered, 0)[k], filter))
+//@   loop 0 invariant forall(k, rangeindex + 1, len(unfiltered), unfiltered[k] == atentry(unfiltered, 0)[k])
 
 //@ func (g *EvaluateGatesChip) EvaluateGateConstraints(vars EvaluationVars) (res []gl.QuadraticExtensionVariable)
 //@   props C15
